@@ -318,6 +318,8 @@ class _ListDict_(object):
         if self.weighted:
             weight = self.weight.pop(choice)
             self._total_weight -= weight
+            if not self.items:
+                self._total_weight = 0 #no floating-point residue once nothing is left
             if weight == self.max_weight:  
                 #if we find ourselves in this case often
                 #it may be better just to let max_weight be the
